@@ -12,11 +12,17 @@
      nothing else: printing with prefix p at width w gives exactly the printer lines of the un-prefixed
      print at width w - |p|, each with p in front (a "printer line" may contain raw newlines of quoted
      words; those continuation fragments belong to the word and carry no prefix).
-   The clauses "the filtered text parses to exactly that sub-tree" and "same tree at every level once
-   attributes are ignored" are decided by the correspondence stream + oracle (C19's Filters/Skeleton
-   streams), not by a theorem: PARTIAL there. *)
+   - the filtered text parses to exactly the allowed sub-tree: at attributes level 0 for every tree of the
+     shape the parser builds (dtree_ok; no hypothesis on the levels is needed: a non-numeric level of a
+     visible object makes printing fail, one inside a hidden sub-tree is never looked at), at level 3 for
+     trees with bool/int attributes; the trees re-parsed from level 0 and from level 3 agree once
+     attributes are ignored (C19_filtered_text_parses_level0, _level3_partial, C19_reparsed_levels_agree_partial);
+   - every parse result whose expert levels are unset or numbers satisfies wf_show, so the expert-filter
+     theorem applies to every such parsed document (C19_parsed_trees_are_wf).
+   Still decided by the correspondence stream + oracle only: attribute levels 1 and 2 and string-valued /
+   .type / .call attributes in the re-parse clauses. *)
 From Coq Require Import List Ascii String ZArith Bool.
-From Phil Require Import Base Tokenizer Tree Parser Show ShowProofs ShowPrefix.
+From Phil Require Import Base Tokenizer Tree Parser Show ShowProofs ShowPrefix ShowErase WordsRoundtrip TreeRoundtrip ShowReparse ParserShape.
 Import ListNotations.
 
 Theorem C19_expert_filter_is_prune : forall k l, forallb wf_show l = true -> forall prefix level width,
@@ -66,6 +72,38 @@ Theorem C19_text_is_its_printer_lines : forall l q e lvl w,
   show_objs l q e lvl w = lift render (objs_lines l q e lvl w).
 Proof. exact show_objs_lines. Qed.
 Print Assumptions C19_text_is_its_printer_lines.
+
+Theorem C19_filtered_text_parses_level0 : forall o l e w text,
+  forallb (dtree_ok []) l = true ->
+  as_str l [] e 0 w = Ok text ->
+  exists l', parse o text = Ok l' /\ map erase_obj l' = map erase_all (shown e l).
+Proof. exact filtered_text_parses_level0_ok. Qed.
+Print Assumptions C19_filtered_text_parses_level0.
+
+Theorem C19_filtered_text_parses_level3_partial : forall o l e w text,
+  forallb atree_ok l = true ->
+  as_str l [] e 3 w = Ok text ->
+  exists l', parse o text = Ok l' /\ map erase_obj l' = map erase3 (shown e l).
+Proof. exact filtered_text_parses_level3. Qed.
+Print Assumptions C19_filtered_text_parses_level3_partial.
+
+Theorem C19_reparsed_levels_agree_partial : forall o0 o3 l e w0 w3 t0 t3 l0 l3,
+  forallb atree_ok l = true ->
+  as_str l [] e 0 w0 = Ok t0 -> parse o0 t0 = Ok l0 ->
+  as_str l [] e 3 w3 = Ok t3 -> parse o3 t3 = Ok l3 ->
+  map erase_obj l0 = map erase_all l3 /\ map erase_all l0 = map erase_all l3.
+Proof. exact reparsed_levels_agree. Qed.
+Print Assumptions C19_reparsed_levels_agree_partial.
+
+Theorem C19_pruning_stays_in_the_domain : forall k l,
+  forallb (dtree_ok []) l = true -> forallb (dtree_ok []) (prunes k l) = true.
+Proof. exact prunes_keeps_dtree_ok. Qed.
+Print Assumptions C19_pruning_stays_in_the_domain.
+
+Theorem C19_parsed_trees_are_wf : forall o s l,
+  parse o s = Ok l -> expert_levels_numeric l = true -> forallb wf_show l = true.
+Proof. exact parse_lands_in_wf_show. Qed.
+Print Assumptions C19_parsed_trees_are_wf.
 
 (* non-vacuity: a parsed document with a dotted name below a hidden level satisfies wf_show, and the filter
    really removes something *)
